@@ -97,7 +97,7 @@ func TestVerifC11RealEvictor(t *testing.T) {
 			}
 			byName := map[string]*c11Pod{}
 			for _, p := range sc.pods {
-				byName[p.pod.Name] = p
+				byName[p.pod.Namespace+"/"+p.pod.Name] = p
 			}
 			curRound := 0
 			var apiLog []c11APIReq
@@ -111,7 +111,7 @@ func TestVerifC11RealEvictor(t *testing.T) {
 				if !ok {
 					return true, nil, fmt.Errorf("c11: unexpected eviction object %T", ca.GetObject())
 				}
-				p := byName[ev.Name]
+				p := byName[action.GetNamespace()+"/"+ev.Name]
 				if p == nil {
 					return true, nil, apierrors.NewNotFound(schema.GroupResource{Resource: "pods"}, ev.Name)
 				}
@@ -127,17 +127,34 @@ func TestVerifC11RealEvictor(t *testing.T) {
 				}
 				return true, ev, nil
 			})
-			evictor := NewEvictor(client, &record.FakeRecorder{}, policyv1.SchemeGroupVersion.Version)
+			// executor configuration: evict by API with policy/v1 (what FindSupportedEvictVersion yields on current
+			// clusters); rarely an eviction version the Evictor does not support (every eviction then fails without a
+			// request), or the kill-containers mode (no API request, nothing is remembered; the generated pods carry no
+			// container status, so nothing is sent to a container runtime)
+			version, killMode := policyv1.SchemeGroupVersion.Version, false
+			switch r.Weighted(80, 6, 14) {
+			case 1:
+				version = "v1beta1"
+			case 2:
+				killMode = true
+			}
+			evictor := NewEvictor(client, &record.FakeRecorder{}, version)
 			stop := make(chan struct{})
 			defer close(stop)
 			if err := evictor.Start(stop); err != nil {
 				c.Harness("evictor start: %v", err)
 			}
-			real := InitializeEvictionExecutor(evictor, true)
+			real := InitializeEvictionExecutor(evictor, !killMode)
+			sc.apiMode = !killMode
 			if _, ok := real.(*DefaultEvictionExecutor); !ok {
 				c.Harness("production executor is %T, expected *DefaultEvictionExecutor", real)
 			}
 			c11LogScenario(c, sc)
+			c.Op("evictVersion=%s killMode=%v", version, killMode)
+			c.Count("real_evictor_cases_version_"+version, 1)
+			if killMode {
+				c.Count("real_evictor_cases_kill_mode", 1)
+			}
 			c.Op("rounds=%d failPct=%d outcome(round x pod; 0 ok 1 429 2 notfound 3 generic)=%v", rounds, failPct, outcome)
 
 			truth := map[int]bool{}      // eviction request succeeded at the API
@@ -205,6 +222,9 @@ func TestVerifC11RealEvictor(t *testing.T) {
 							c.Harness("api log out of step: request for pod %d during Evict(%s)", req.pod, p.name)
 						}
 						want = req.kind == c11APIOK
+					case nAPI == 0 && killMode:
+						// killing containers involves no API request: there is no independent record, the answer is taken
+						want = ev.result
 					case nAPI == 0:
 						want = false
 						if ev.result {
@@ -220,7 +240,9 @@ func TestVerifC11RealEvictor(t *testing.T) {
 					if ev.result != want && nAPI > 0 {
 						report("C11/real-evictor/evict-result-disagrees-with-api", "round %d: Evict(%s) returned %v, the API outcome was evicted=%v", ro, p.name, ev.result, want)
 					}
-					if want {
+					if want && killMode {
+						// containers killed; the pod object stays and is not "already evicted" for a later round
+					} else if want {
 						truth[p.idx] = true
 						delete(failedEver, p.idx)
 					} else {
